@@ -7,7 +7,12 @@ import (
 	"github.com/mostynb/zstdpool-freelist"
 )
 
-var zstdDecoderPool = zstdpool.NewDecoderPool()
+// maxDecompressedSize bounds what a compressed payload (transaction metadata, rewards, gsfa records)
+// may decompress to. The decoder allocates the size declared in the frame header up front, so without
+// a bound a few corrupted bytes can ask for gigabytes.
+const maxDecompressedSize = 256 << 20
+
+var zstdDecoderPool = zstdpool.NewDecoderPool(zstd.WithDecoderMaxMemory(maxDecompressedSize))
 
 func DecompressZstd(data []byte) ([]byte, error) {
 	dec, err := zstdDecoderPool.Get(nil)
